@@ -42,6 +42,36 @@ def lvl(name, n):
 def metrics_einsums(draw, n_min=1, n_max=1, max_vars=3, allow_partition=True):
     """a cascade of simple product Einsums with explicit loop orders and spacetime for every Einsum"""
     n = draw(st.integers(n_min, n_max))
+    kind = draw(st.sampled_from(["plain"] * 6 + ["affine", "flatten"])) if n_min == 1 else "plain"
+    if kind == "affine":
+        # a convolution: followers of a leader-follower intersector may need projection
+        a, b = draw(st.sampled_from([1, 1, 2])), draw(st.sampled_from([1, 1, 2]))
+        pl = gen.plain
+        facs = [{"t": "I", "idx": [[[a, "q"], [b, "s"]]]}, {"t": "F", "idx": [pl("s")]}]
+        if draw(st.booleans()):
+            facs.reverse()
+        spec = {"decl": [["F", ["S"]], ["I", ["W"]], ["Z", ["Q"]]],
+                "exprs": [{"out": ["Z", [pl("q")]], "terms": [{"take": None, "factors": facs}]}],
+                "rank_order": {}, "loop_order": {}, "partitioning": {}, "spacetime": {}, "extra": {}}
+        lo = list(draw(st.permutations(["Q", "S"])))
+        spec["loop_order"]["Z"] = lo
+        k = draw(st.integers(0, 2))
+        spec["spacetime"]["Z"] = {"space": lo[:k] if draw(st.booleans()) else [], "time": None}
+        sp_ = spec["spacetime"]["Z"]["space"]
+        spec["spacetime"]["Z"]["time"] = [r for r in lo if r not in sp_]
+        spec["affine_extents"] = {"a": a, "b": b}
+        return spec, {}
+    if kind == "flatten":
+        c = draw(gen.case_flat(max_extent=3, allow_scalars=False))
+        spec = c["spec"]
+        if spec["loop_order"].get("Z"):
+            lo = spec["loop_order"]["Z"]
+            k = draw(st.integers(0, len(lo)))
+            spec["spacetime"]["Z"] = {"space": lo[:k] if draw(st.booleans()) else [], "time": None}
+            sp_ = spec["spacetime"]["Z"]["space"]
+            spec["spacetime"]["Z"]["time"] = [r for r in lo if r not in sp_]
+            spec["rank_order"] = {}
+            return spec, dict(c.get("sizes") or {})
     if n == 1 and draw(st.booleans()):
         spec = draw(gen.spec_plain(max_terms=1, allow_take=False, allow_output_only=False, allow_scalars=False,
                                    allow_rank0=False, max_vars=max_vars, max_factors=3))
@@ -109,6 +139,7 @@ def hardware_for(draw, spec, configs=("accel",), force=None):
     isect_type = draw(st.sampled_from([None, "two-finger", "skip-ahead", "leader-follower", "leader-follower"]))
     has_seq = draw(st.integers(0, 2)) == 0
     has_merger = draw(st.integers(0, 2)) == 0
+    has_reg = draw(st.integers(0, 2)) == 0
     mrg_inputs = draw(st.sampled_from([2, 64, "inf"]))
     mrg_radix = draw(st.sampled_from([2, 64, "inf"]))
     freq = draw(st.sampled_from([1000, 2048, 500000000]))
@@ -123,7 +154,7 @@ def hardware_for(draw, spec, configs=("accel",), force=None):
             n2 = draw(st.sampled_from([0, 1, 7]))
         sfx = "" if len(configs) == 1 else cfg[-1].upper()
         names = {"mem": "Mem" + sfx, "buf": "Buf" + sfx, "mul": "Mul" + sfx, "add": "Add" + sfx,
-                 "isect": "Isect" + sfx, "seq": "Seq" + sfx, "mrg": "Mrg" + sfx}
+                 "isect": "Isect" + sfx, "seq": "Seq" + sfx, "mrg": "Mrg" + sfx, "reg": "Reg" + sfx}
         comp_names[cfg] = names
         pe_local = [{"name": names["mul"], "class": "Compute", "attributes": {"type": "mul"}},
                     {"name": names["add"], "class": "Compute", "attributes": {"type": "add"}}]
@@ -137,6 +168,8 @@ def hardware_for(draw, spec, configs=("accel",), force=None):
             chip_local.append({"name": names["mrg"], "class": "Merger",
                                "attributes": {"inputs": mrg_inputs, "comparator_radix": mrg_radix, "outputs": 1,
                                               "order": "fifo", "reduce": False}})
+        if has_reg:
+            pe_local.append({"name": names["reg"], "class": "Buffet", "attributes": {"width": 32, "depth": 128, "bandwidth": 512}})
         arch[cfg] = [{
             "name": "System" + sfx, "attributes": {"clock_frequency": freq},
             "local": [{"name": names["mem"], "class": "DRAM", "attributes": {"bandwidth": bw_mem}}],
@@ -191,7 +224,7 @@ def hardware_for(draw, spec, configs=("accel",), force=None):
                             continue
                         b = {"tensor": t, "rank": r, "type": ty, "format": fmt_name[(out, t)]}
                         if buffet:
-                            i = lo.index(r) if r in lo else len(lo)
+                            i = lo.index(r) if r in lo else next((k_ for k_, x_ in enumerate(lo) if r in x_), len(lo))
                             choices = (["root"] + lo)[:i + 1]
                             b["evict-on"] = draw(st.sampled_from(choices))
                             if b["evict-on"] != "root" and draw(st.integers(0, 3)) == 0:
@@ -217,11 +250,29 @@ def hardware_for(draw, spec, configs=("accel",), force=None):
                 nb = dict(b)
                 if buf_class == "Buffet":
                     r = b["rank"]
-                    i = lo.index(r) if r in lo else len(lo)
+                    i = lo.index(r) if r in lo else next((k_ for k_, x_ in enumerate(lo) if r in x_), len(lo))
                     nb["evict-on"] = draw(st.sampled_from((["root"] + lo)[:i + 1]))
                 bb.append(nb)
         if bb and (memory_only or draw(st.integers(0, 3)) > 0):
             entry.append({"component": names["buf"], "bindings": bb})
+        if has_reg and bb and buf_class == "Buffet" and draw(st.booleans()):
+            # an inner register file holding (part of) what the outer buffer holds: lazily, or eagerly from some rank down
+            rb = []
+            done_t = set()
+            for b in bb:
+                if b["tensor"] in done_t or b.get("style") == "eager" or draw(st.booleans()):
+                    continue
+                nb = {k_: v for k_, v in b.items() if k_ not in ("style", "root")}
+                r = b["rank"]
+                i = lo.index(r) if r in lo else next((k_ for k_, x_ in enumerate(lo) if r in x_), len(lo))
+                ch = (["root"] + lo)[:i + 1]
+                nb["evict-on"] = draw(st.sampled_from(ch))
+                if nb["evict-on"] != "root" and draw(st.booleans()):
+                    nb["style"] = "eager"
+                    done_t.add(b["tensor"])
+                rb.append(nb)
+            if rb:
+                entry.append({"component": names["reg"], "bindings": rb})
         if memory_only:
             bindings[out] = entry
             continue
@@ -235,7 +286,7 @@ def hardware_for(draw, spec, configs=("accel",), force=None):
             cand = []
             for r in lo:
                 hs = [t for t, rs in per.items() if t != out and r in rs]
-                if len(hs) == 2:
+                if len(hs) == 2 or (len(hs) == 3 and isect_type == "leader-follower"):
                     cand.append((r, hs))
             if cand:
                 chosen = list(draw(st.permutations(cand)))[:draw(st.sampled_from([1, 2, 2]))]
@@ -278,8 +329,13 @@ def case_metrics(draw, n_min=1, n_max=1, max_extent=4, configs=("accel",), with_
         case["mapping_rejected"] = True
     else:
         spec["extra"] = extra
+    aff = spec.pop("affine_extents", None)
     if with_inputs:
-        rt = draw(gen.runtime(spec, max_extent=max_extent))
+        ext = None
+        if aff:
+            q, s_ = draw(st.integers(1, max_extent)), draw(st.integers(1, 3))
+            ext = {"Q": q, "S": s_, "W": aff["a"] * (q - 1) + aff["b"] * (s_ - 1) + 1}
+        rt = draw(gen.runtime(spec, max_extent=max_extent, extents=ext))
         rt["sizes"].update(sizes)
         case.update(rt)
     return case
